@@ -74,9 +74,12 @@ def zoneRow (z : Zone) : Option Row :=
            high := zoneThresh bHigh z.trips, crit := zoneThresh bCritical z.trips }
   | _, _ => none
 
-/-- hwmon rows; thermal zones only when hwmon lists no temperature file at all -/
+/-- hwmon rows; thermal zones only when hwmon lists no temperature file at all.
+    Says nothing about `/sys/devices/platform/coretemp.*` (`TempTree.coretempFiles`): the theorems
+    that use this view assume that glob empty; what the code does with it is a characterisation
+    (`C19_coretemp_as_found`), not a promise -/
 def temperatures (t : TempTree) : List Row :=
-  if (hwmonSensors t.chips).isEmpty ∧ t.coretempFiles = 0 then t.zones.filterMap zoneRow
+  if (hwmonSensors t.chips).isEmpty then t.zones.filterMap zoneRow
   else (hwmonSensors t.chips).filterMap fun cs => hwmonRow cs.1 cs.2
 
 def toFahrenheit (q : Rat) : Rat := q * 9 / 5 + 32
@@ -98,8 +101,10 @@ def temperaturesFront (fahrenheit : Bool) (t : TempTree) : List Row :=
 
 /-! ### fans -/
 
-/-- silent when a listed fan has a readable non-integer reading, or a readable reading under an
-    unreadable chip name (the property only promises that a missing READING is skipped) -/
+/-- one fan: `some none` = skipped (reading missing / unreadable), `some (some r)` = reported as `r`,
+    `none` = the property is silent about THIS fan: a readable non-integer reading, or a readable
+    reading under an unreadable chip name (the property only promises that a missing READING is
+    skipped) -/
 def fanRow (c : Chip) (f : Fan) : Option (Option FanOut) :=
   match fileInt f.input with
   | none => some none
@@ -114,11 +119,20 @@ def allSome : List (Option α) → Option (List α)
   | none :: _ => none
   | some a :: rest => (allSome rest).map (a :: ·)
 
-def fans (chips : List Chip) : Option (List FanOut) :=
+/-- the fans the kernel lists at the level that is consulted: the `hwmonN` directories themselves;
+    the `hwmonN/device` level only when no direct fan file exists at all -/
+def fanListed (chips : List Chip) : List (Chip × Fan) :=
   let of (nested : Bool) : List (Chip × Fan) :=
     (chips.filter (fun c => c.nested == nested)).flatMap fun c => (c.fans.filter (·.listed)).map fun f => (c, f)
-  let listed := if (of false).isEmpty then of true else of false
-  (allSome (listed.map fun cf => fanRow cf.1 cf.2)).map (·.filterMap id)
+  if (of false).isEmpty then of true else of false
+
+/-- the whole call, when the property determines EVERY listed fan (else silent) -/
+def fans (chips : List Chip) : Option (List FanOut) :=
+  (allSome ((fanListed chips).map fun cf => fanRow cf.1 cf.2)).map (·.filterMap id)
+
+/-- per fan: the rows of the fans the property determines (the others left out) -/
+def fanRowsDetermined (chips : List Chip) : List FanOut :=
+  (fanListed chips).filterMap fun cf => (fanRow cf.1 cf.2).join
 
 /-! ### battery -/
 
@@ -148,11 +162,13 @@ def acOnline (ss : List Supply) : Option (Option Int) :=
   let onl (n : Bytes) : FileState := match ss.find? (fun s => s.name == n) with | some s => s.online | none => .absent
   altInt (onl bAC0) (onl bAC)
 
-/-- mains adapter `online` file when there is one (`1` = plugged), else the battery's status text -/
+/-- mains adapter `online` file when there is one (`1` = plugged), else the battery's status text.
+    (A readable adapter file that holds no integer: `battery` below is SILENT on such a tree; the
+    branch here only records what the code does then — `b'yes' == 1` is False —, see `C19_plugged`.) -/
 def pluggedOf (ss : List Supply) (b : Supply) : Option Bool :=
   match acOnline ss with
   | some (some v) => some (v == 1)
-  | some none => some false                     -- unreadable as a number: not `1`
+  | some none => some false                     -- characterisation only, not reachable from `battery`
   | none =>
     let st := lower (fileText b.status)
     if st = bDischarging then some false
@@ -181,9 +197,10 @@ def percentOf (now full : Option Int) (capacity : FileState) : Option (Option Ra
   | some n, some f => some (some (if f = 0 then 0 else 100 * (n : Rat) / (f : Rat)))
   | _, _ => capacityPercent capacity
 
-/-- outer `none`: silent (power_supply directory missing, or a consulted file holds no integer) -/
+/-- outer `none`: silent (a consulted file holds no integer). A kernel without the power_supply
+    class (no `/sys/class/power_supply` at all) exposes no battery: `None`, as the statement says. -/
 def battery (p : PowerTree) : Option (Option BatOut) :=
-  if !p.dirExists then none
+  if !p.dirExists then some none
   else match firstBattery p.supplies with
     | none => some none
     | some b =>
@@ -197,6 +214,8 @@ def battery (p : PowerTree) : Option (Option BatOut) :=
         | none => none
         | some none => some none
         | some (some pc) =>
+          if acOnline p.supplies = some none then none      -- adapter file readable, not an integer: silent
+          else
           let pl := pluggedOf p.supplies b
           some (some { percent := pc, secsleft := secsleftOf pl now.join power.join tte.join, plugged := pl })
 
@@ -235,6 +254,13 @@ def offline (online : List (Nat × FileState)) (i : Nat) : Bool :=
   match online.lookup i with
   | some (.content b) => b == bZeroNl
   | _ => false
+
+/-- one policy at position `i` of the numerically sorted list. Which `cpuN/online` file tells that
+    the CPU(s) of a policy WITHOUT any frequency file are offline is not fixed by the property: the
+    specification takes the CPU the directory is numbered after (`p.n`) and is SILENT when the
+    position `i` differs from it (psutil probes `cpu{i}/online`; on a gap-free numbering both agree) -/
+def policyRowAt (online : List (Nat × FileState)) (i : Nat) (p : Policy) (info : Option Rat) : Option Freq :=
+  if (curOf p info).isNone && i != p.n then none else policyRow p info (offline online p.n)
 
 /-! ### /proc/stat and /proc/cpuinfo as the kernel prints them -/
 
@@ -323,6 +349,6 @@ def freqList (variant : Bool) (blocks : List CpuBlock) (t : FreqTree) : Option (
   else
     let paths := sortByN (if t.policies.isEmpty then t.perCpu else t.policies)
     allSome (((List.range paths.length).zip paths).map fun ip =>
-      policyRow ip.2 (if paths.length = infos.length then infos[ip.1]? else none) (offline t.online ip.1))
+      policyRowAt t.online ip.1 ip.2 (if paths.length = infos.length then infos[ip.1]? else none))
 
 end Psutil.C19.Spec
